@@ -9,13 +9,13 @@ ENGINE_INVS = "TypeOK AttemptBound NoEmptyAction StackShape InvC01 InvC02 InvC03
 PLAN = {
     "C01": dict(mc_q=[("single", 3, 4), ("singlenil", 2, 4), ("singlecancel", 2, 4), ("flowerr", 2, 3)],
                 mc_t=[("single", 5, 4), ("singlenil", 3, 4), ("singleeres", 3, 4), ("singlecancel", 3, 4), ("flowerr", 2, 4), ("flow2", 1, 5), ("flowcancel", 2, 4)],
-                gen_q=("single,plain,err,cancel", 120), gen_t=("single,plain,err,nest,cancel,cancelenum", 2500)),
+                gen_q=("single,plain,err,cancel,panic", 110), gen_t=("single,plain,err,nest,cancel,cancelenum,panic", 2200)),
     "C02": dict(mc_q=[("single", 3, 4), ("singlecancel", 2, 4), ("flowretry", 1, 5), ("zerobudget", 1, 4)],
                 mc_t=[("single", 6, 4), ("singlecancel", 3, 4), ("flowerr", 2, 4), ("flowretry", 1, 6), ("zerobudget", 1, 5)],
                 gen_q=("single,plain,err,flowretry,zerobudget", 130), gen_t=("single,plain,err,flowretry,zerobudget", 3500)),
-    "C03": dict(mc_q=[("flow2", 1, 4), ("rerun", 1, 4), ("flow2empty", 1, 3)],
-                mc_t=[("flow2", 1, 6), ("rerun", 1, 5), ("flow2empty", 1, 5), ("nest", 1, 3)],
-                gen_q=("plain,nest", 200), gen_t=("plain,nest,err", 4000)),
+    "C03": dict(mc_q=[("flow2", 1, 4), ("rerun", 1, 4), ("flow2empty", 1, 3), ("dynwire", 1, 4)],
+                mc_t=[("flow2", 1, 6), ("rerun", 1, 5), ("flow2empty", 1, 5), ("nest", 1, 3), ("dynwire", 1, 5)],
+                gen_q=("plain,nest,dynwire", 160), gen_t=("plain,nest,err,dynwire", 3200)),
     "C04": dict(mc_q=[("flowerr", 2, 3), ("nesterr", 2, 3), ("nilstart", 1, 3), ("flowbatch", 2, 4)],
                 mc_t=[("flowerr", 2, 5), ("nesterr", 2, 4), ("nilstart", 1, 4), ("single", 4, 4), ("flowbatch", 2, 5)],
                 gen_q=("faultenum,err", 60), gen_t=("faultenum,err,nilstart", 800)),
@@ -34,7 +34,7 @@ PLAN = {
                 gen_q=("single,plain", 200), gen_t=("single,plain,err", 4000)),
     "C18": dict(mc_q=[("single", 2, 4), ("flow2empty", 1, 4), ("flowbatch", 2, 4), ("nestsmall", 1, 3), ("singlecancel", 2, 4)],
                 mc_t=[("single", 3, 4), ("flow2empty", 1, 6), ("nest", 1, 4), ("singlecancel", 3, 4), ("flowcancel", 2, 4), ("flowbatch", 2, 5)],
-                gen_q=("single,plain,nest,cancel", 130), gen_t=("single,plain,nest,cancel,cancelenum", 2500)),
+                gen_q=("single,plain,nest,cancel,panic", 110), gen_t=("single,plain,nest,cancel,cancelenum,panic", 2200)),
 }
 
 
